@@ -207,10 +207,9 @@ func genCase(r *kit.Rand, i int) []string {
 		cur[g] = tgt
 		return vecFor(r, tgt, 12)
 	}
-	// task restarts (per-ID state is restored from the topic): only where the last delivered event always carries the
-	// ID's current level, i.e. without flap suppression and without withheld recoveries (what a restart resumes at
-	// otherwise is C08's subject)
-	restarts := form != "w" && !flap && !noRec && r.Chance(1, 4)
+	// task restarts: per-ID state is restored from the topic (the last delivered event of the ID), in every
+	// configuration incl. noRecoveries / flapping / stateChangesOnly
+	restarts := form != "w" && r.Chance(1, 4)
 	for k := 0; k < size; k++ {
 		g := r.Intn(nG)
 		gid := kit.Esc(gids[g])
